@@ -30,12 +30,12 @@ static const mk_fn MK[12] = {
     mk_key<ascon::siv128>, mk_key<ascon::siv128a>, mk_key<ascon::siv80pq>,
     mk_keylen<ascon::isap128a>, mk_keylen<ascon::isap128>, mk_keylen<ascon::isap80pq>};
 
-static const char *KP[10] = {"default-ctor", "key-ctor", "key-ctor-null/zero-len", "set_key(full)", "set_key(ptr,0)", "set_key(nullptr,0)",
-                             "isap-ctor(saved,80)", "isap-set_key(saved,80)", "clear-then-rekey", "default-ctor+set_key(full)"};
+static const char *KP[11] = {"default-ctor", "key-ctor", "key-ctor-null/zero-len", "set_key(full)", "set_key(ptr,0)", "set_key(nullptr,0)",
+                             "isap-ctor(saved,80)", "isap-set_key(saved,80)", "clear-then-rekey", "default-ctor+set_key(full)", "set_key(full)+refused-set_key"};
 static const char *OV[3] = {"raw-pointer", "byte_array", "byte_array+ad"};
 
 static rc::Gen<KV> gen_ciphers() {
-    return rc::gen::mapcat(rc::gen::tuple(inRangeFull(0, 4), inRangeFull(0, 3), inRangeFull(0, 10), inRangeFull(0, 3)), [](std::tuple<int, int, int, int> h) {
+    return rc::gen::mapcat(rc::gen::tuple(inRangeFull(0, 4), inRangeFull(0, 3), inRangeFull(0, 11), inRangeFull(0, 3)), [](std::tuple<int, int, int, int> h) {
         int fam = std::get<0>(h), alg = std::get<1>(h), kp = std::get<2>(h), ov = std::get<3>(h);
         if ((kp == 6 || kp == 7) && fam != 3) kp = 3;
         size_t keylen = fam == 3 ? lib::ISAP_KEYLEN[alg] : lib::KEYLEN[alg];
@@ -73,6 +73,18 @@ static std::string check_ciphers(const KV &c) {
     case 5: o.reset(MK[fam * 3 + alg](k.p, keylen)); if (!o->set_key(nullptr, 0)) return where + "set_key(nullptr, 0) returned false"; eff = zero; break;
     case 6: { Bytes sv = c_isap_saved(alg, key); Buf s(sv); o.reset(MK[fam * 3 + alg](s.p, 80)); break; }
     case 7: { Bytes sv = c_isap_saved(alg, key); Buf s(sv); o.reset(lib::make_cpp(fam, alg)); if (!o->set_key(s.p, 80)) return where + "set_key(saved, 80) returned false"; break; }
+    case 10: {
+        // a refused set_key ("false if key or len are invalid") must leave the key that was set before in place
+        o.reset(lib::make_cpp(fam, alg));
+        if (!o->set_key(k.p, keylen)) return where + "set_key(key, key_size) returned false";
+        static const size_t ODD[6] = {1, 7, 15, 17, 33, 100};
+        unsigned pos = (unsigned)tonum(c, "pos");
+        size_t len = (pos & 1) ? keylen : ODD[(pos >> 1) % 6];
+        Bytes junk(std::max<size_t>(len, 1), 0xEE);
+        Buf jb(junk);
+        bool accepted = (pos & 1) ? o->set_key(nullptr, len) : o->set_key(jb.p, len);
+        if (accepted) return "";      // "the subclass may support other key sizes": nothing is promised then
+        break; }
     case 8: { Bytes k2 = key; k2[0] ^= 0xff; Buf kb(k2); o.reset(MK[fam * 3 + alg](kb.p, keylen)); o->clear(); if (!o->set_key(k.p, keylen)) return where + "set_key after clear() returned false"; break; }
     }
     if (o->key_size() != keylen) return where + "key_size() = " + num(o->key_size());
